@@ -281,6 +281,25 @@ func (w *World) fundedConversion(h uint32) (factom.Entry, bool) {
 	return factom.Entry{}, false
 }
 
+// fundedConversionTo converts a twentieth of some user's non-PEG balance into `to`.
+func (w *World) fundedConversionTo(h uint32, to fat2.PTicker) (factom.Entry, bool) {
+	for i := range w.G.Users {
+		u := w.G.Users[(i+int(h))%len(w.G.Users)]
+		if u.IsE && h < w.S.Acts.RCDE {
+			continue
+		}
+		for _, t := range w.NonZeroAssets(u.FA()) {
+			if t == to || t == fat2.PTickerPEG {
+				continue
+			}
+			if bal := w.Balance(u.FA(), t); bal >= 1000 {
+				return w.G.Batch(h, u, []fat2.Transaction{Conversion(u.FA(), t, bal/20, to)}), true
+			}
+		}
+	}
+	return factom.Entry{}, false
+}
+
 // BuildBlock generates the block at height h on top of the implementation's current ledger.
 func (w *World) BuildBlock(h uint32) *BlockSpec {
 	r := w.G.R
@@ -403,7 +422,34 @@ func (w *World) BuildBlock(h uint32) *BlockSpec {
 					b.TX = append(b.TX, e)
 					w.Rep.Count("batch:boundary-conversion")
 				}
+				if act == a.V20 || act == a.V202 || act == a.ConvLimit || act == a.V4 {
+					// a conversion INTO PEG pending across the rule change
+					if e, ok := w.fundedConversionTo(h, fat2.PTickerPEG); ok {
+						b.TX = append(b.TX, e)
+						w.Rep.Count("batch:boundary-conversion-to-peg")
+					}
+				}
 				break
+			}
+		}
+	}
+	// in the forty blocks before a snapshot height the holders spread small amounts over every
+	// asset in turn, so that each asset column takes part in the staking valuation
+	if h >= a.V20-50 && h >= a.TxConv && h%144 >= 100 {
+		u := w.G.Users[int(h)%len(w.G.Users)]
+		if !(u.IsE && h < a.RCDE) {
+			if bal := w.Balance(u.FA(), fat2.PTickerFCT); bal > 1e6 {
+				var txs []fat2.Transaction
+				for j := 0; j < 3; j++ {
+					to := fat2.PTicker(1 + (int(h)*3+j)%(int(fat2.PTickerMax)-1))
+					if to != fat2.PTickerFCT && to != fat2.PTickerPEG {
+						txs = append(txs, Conversion(u.FA(), fat2.PTickerFCT, bal/200, to))
+					}
+				}
+				if len(txs) > 0 {
+					b.TX = append(b.TX, w.G.Batch(h, u, txs))
+					w.Rep.Count("batch:asset-spread")
+				}
 			}
 		}
 	}
